@@ -148,6 +148,7 @@ class State:
         self.axiom_hooks = []
         self.capture = None  # when a list: assumptions are collected (inside a quantifier body) instead of asserted
         self.has_quant = False  # a quantified formula is among the assumptions: sat-direction checks tend to time out
+        self.qf_solver = z3.Solver()  # the quantifier-free assumptions only (a weaker context: `unsat` here is `unsat` there)
 
     # ---- fresh symbols
     def fresh_name(self, hint):
@@ -179,8 +180,10 @@ class State:
             f = f.e
         if z3.is_true(f):
             return
-        if not self.has_quant and _has_quantifier(f):
+        if _has_quantifier(f):
             self.has_quant = True
+        else:
+            self.qf_solver.add(f)
         self.pc.append(f)
         self.solver.add(f)
 
@@ -195,6 +198,17 @@ class State:
         self.ex.solver_time += time.time() - t0
         self.ex.queries += 1
         return r, model
+
+    def refuted_qf(self, extra, timeout_ms=1000):
+        """Is `extra` inconsistent with the quantifier-free part of the path condition? (cheap and sound: used where a
+        full check would mostly time out because of quantified assumptions)"""
+        self.qf_solver.set("timeout", timeout_ms)
+        self.qf_solver.push()
+        self.qf_solver.add(extra)
+        r = self.qf_solver.check()
+        self.qf_solver.pop()
+        self.ex.queries += 1
+        return r == z3.unsat
 
     def path_key(self):
         return tuple(d[0] for d in self.decisions[: self.pos])
